@@ -80,14 +80,15 @@ func (n *keysNode) child() *keysNode {
 }
 
 type keysWorker struct {
-	p     *env.Provider
-	tab   Table
-	root  *keysNode
-	stats *engine.Stats
-	pool  map[string]env.ConsKey
-	names []string
-	cons  []string // consumer ids: L="0", R="1", S="2"
-	U     time.Duration
+	p      *env.Provider
+	tab    Table
+	root   *keysNode
+	stats  *engine.Stats
+	rootVs []V
+	pool   map[string]env.ConsKey
+	names  []string
+	cons   []string // consumer ids: L="0", R="1", S="2"
+	U      time.Duration
 }
 
 func (c Keys) NewWorker(stats *engine.Stats) (engine.Worker, error) {
@@ -136,7 +137,8 @@ func (c Keys) NewWorker(stats *engine.Stats) (engine.Worker, error) {
 		w.root.M.Known[cid] = map[string]knownEnt{}
 	}
 	n, vs := w.block(w.root, 5*time.Second)
-	if n == nil || len(vs) > 0 {
+	w.rootVs = vs
+	if n == nil {
 		return nil, fmt.Errorf("prefix block: %v", vs)
 	}
 	x := n.(*keysNode)
@@ -154,6 +156,7 @@ func (c Keys) NewWorker(stats *engine.Stats) (engine.Worker, error) {
 	return w, nil
 }
 
+func (w *keysWorker) RootViolations() []V            { return w.rootVs }
 func (w *keysWorker) Root() engine.Node              { return w.root }
 func (w *keysWorker) Enabled(n engine.Node) []string { return w.tab.Names() }
 func (w *keysWorker) Apply(n engine.Node, ev string) (engine.Node, []V) {
